@@ -563,7 +563,10 @@ func trustedBase(eng *Engine) []string {
 			if strings.HasPrefix(cl.Label, "assumed-") && c.Kind == "iface" && c.Flags["refined"] != "" {
 				more = append(more, "assumed part of interface contract "+n+" (not proved for the implementations): "+cl.Text)
 			}
-			if strings.HasPrefix(cl.Label, "ghostdef") && !c.Trusted {
+			if strings.HasPrefix(cl.Label, "assumed-") && !c.Trusted && (c.Kind == "func" || c.Kind == "closure") {
+				more = append(more, "assumed postcondition (not checked against the body) of "+eng.shortName(n)+": "+cl.Text)
+			}
+			if strings.HasPrefix(cl.Label, "ghostdef") && !c.Trusted && c.Flags["like"] == "" {
 				more = append(more, "ghost definition (assumed at call sites, nothing to check in the body) in "+eng.shortName(n)+": "+cl.Text)
 			}
 		}
